@@ -13,6 +13,7 @@ import (
 	"github.com/NethermindEth/juno/core"
 	"github.com/NethermindEth/juno/core/crypto"
 	"github.com/NethermindEth/juno/core/felt"
+	"github.com/NethermindEth/juno/core/state"
 	"github.com/NethermindEth/juno/core/trie"
 	"github.com/NethermindEth/juno/core/trie2"
 	"github.com/NethermindEth/juno/core/trie2/triedb"
@@ -459,6 +460,24 @@ func TestPropChainStateRoot(t *testing.T) {
 					case "zero-to-absent", "zero-to-present", "same-value", "replace", "system-storage", "migrate", "deploy+touch":
 						interesting = true
 					}
+				}
+				// the contract records written by the head-state migration (legacy -> new layout) carry no storage root
+				// ("left zero - the running node lazily backfills it"): rewrite the trie2 node's records in that format
+				if i > 0 && rapid.IntRange(0, 5).Draw(rt, "stripStorageRoots") == 0 {
+					n := nodes[1]
+					tip := ch.Blocks[i-1].Post
+					for _, a := range tip.SortedContracts() {
+						ct := tip.Contracts[a]
+						if ct.System {
+							continue
+						}
+						a := a
+						if err := state.WriteContract(n.DB, &a, ct.Nonce, ct.ClassHash, ct.DeployedAt); err != nil {
+							stats.HarnessError("WriteContract: %v", err)
+						}
+					}
+					n.Reopen()
+					c.Label("contract-records-without-storage-root")
 				}
 				for _, n := range nodes {
 					if usePebble && rapid.IntRange(0, 2).Draw(rt, "restart") == 0 {
